@@ -33,6 +33,11 @@ PARTIAL = {
     'stdnum.se.personnummer': ({0, 1}, 'the century digits of the 12-digit form are not part of the Luhn check'),
     'stdnum.eu.at_02': (None, 'the creditor business code (positions 5-7) is excluded from the Mod 97-10 check by the rule book; the length is not gated'),
 }
+# accepting paths without any check, confirmed by reading the module documentation (module -> reason)
+UNCHECKED_PATHS = {
+    'stdnum.do.cedula': 'whitelist of issued cedulas whose check digit is known to be wrong: accepted as they are',
+    'stdnum.id.npwp': 'the 16-digit form that is a NIK (national identity number) carries no Luhn digit',
+}
 COVERAGE_UNDECIDED = {
     'stdnum.nl.btw': 'alternative acceptance: either the BSN check or Mod 97-10 over the whole number; coverage is per alternative',
     'stdnum.isan': scope._REBUILD, 'stdnum.meid': scope._REBUILD, 'stdnum.gs1_128': scope._REBUILD,
@@ -75,7 +80,11 @@ def check(tier):
             rets = validate_with_options(mn, {'check_country': False})
         if mn == 'stdnum.imei':
             rets = [x for x in rets if x['lo'] == 15 and x['hi'] == 15]
+        nochk = []
         if mn not in NAMED:
+            # accepting paths of the same validate() that no check digit algorithm sees: fine when another check (an inline
+            # generator, a comparison) covers every position of the input on that path, a violation when nothing does
+            nochk = [x for x in rets if not x.get('algorithms') and x.get('input_uncovered') and x['input_uncovered'][0]]
             rets = [x for x in rets if x.get('algorithms')]
         if mn in COVERAGE_UNDECIDED:
             rep.undecide('C17.coverage', file, COVERAGE_UNDECIDED[mn])
@@ -83,6 +92,10 @@ def check(tier):
         if not rets:
             rep.undecide('C17.coverage', file, 'no accepting path found')
             continue
+        if nochk and mn not in UNCHECKED_PATHS:
+            rep.fail('C17.coverage', file, 'validate', 'accepting path without the check', 0,
+                     '%s.validate() uses a check digit algorithm on some accepting paths but accepts numbers of shape %s without handing them to it: '
+                     'a typing error in such a number is not rejected' % (mn.replace('stdnum.', ''), nochk[0]['desc'][:80]))
         bad = []
         und = 0
         algs = set()
@@ -175,6 +188,6 @@ def check(tier):
               'ISO 11649 references of %s characters expand beyond the order %d of 10 modulo 97' % (hi, order), what='2 * %s < %d' % (hi, order))
     rep.expect_at_least('C17.coverage', 25, 'modules')
     rep.expect_at_least('C17.inline', 40, 'inline weight obligations')
-    rep.not_decided = ['partially protected by design: ' + '; '.join('%s (%s)' % (k, v[1]) for k, v in PARTIAL.items()), 'letters replaced by letters in formats whose check runs over a mixed alphabet beyond what the generic algorithm guarantees',
+    rep.not_decided = ['accepting paths without a check by design: ' + '; '.join('%s (%s)' % kv for kv in UNCHECKED_PATHS.items()), 'partially protected by design: ' + '; '.join('%s (%s)' % (k, v[1]) for k, v in PARTIAL.items()), 'letters replaced by letters in formats whose check runs over a mixed alphabet beyond what the generic algorithm guarantees',
                        'IMEI of 14 or 16 digits (no check digit by definition)'] + ['%s: %s' % kv for kv in COVERAGE_UNDECIDED.items()]
     return rep.finish()
